@@ -161,6 +161,10 @@ func genNDCase(r *simkit.Rand, tier string, fifo bool) *NDCase {
 				if r.Chance(0.1) {
 					op.Size = 65537
 				}
+				if r.Chance(0.3) {
+					// the same priority class through the other API: the order within the stream is the same promise
+					op.Kind = "sendprio"
+				}
 			} else {
 				op.Kind = simkit.Pick(r, "send", "send", "important", "important", "call", "callimportant")
 				if r.Chance(0.1) {
@@ -439,6 +443,8 @@ func runDelivery(prop string, e *simkit.Env, c *NDCase) *ndRun {
 				switch op.Kind {
 				case "send":
 					err = p.Send(to, msg)
+				case "sendprio":
+					err = p.SendWithPriority(to, msg, gen.MessagePriorityNormal)
 				case "important":
 					err = p.SendImportant(to, msg)
 				case "call":
